@@ -34,7 +34,9 @@ CONSTANTS Mode,       \* "tok" | "chr" | "tower" | "fuel"
 \* unterminated function at end of input); the enumerator does not multiply by them.
 \* right-nested towers: every level is a recursive call of the parser
 TowerOpeners == {"[", "{", "(", "#(", "<<", "fn(){", "case x {", "!", "-", "List(", "fn(", "a(", "[ ..", "x ->",
-                 "#(a, ", "A(", "fn(a) -> ", "let a = {", "[a, ", "A(a: "}
+                 "#(a, ", "A(", "fn(a) -> ", "let a = {", "[a, ", "A(a: ",
+                 \* the same collections as the value of a module constant (constant expressions may have a parser of their own)
+                 "const [", "const #(", "const A("}
 TowerHeights == {8, 60, 64, 65, 150, 200, 1000, 10000, 100000, 1000000}
 \* left-nested chains: the parser loops, the tree nests (tree building is quadratic in the chain
 \* length today, so the heights stop at 10^5 to stay clear of the time budget)
